@@ -98,8 +98,10 @@ def run(ctx: Ctx):
             return fn
 
         def scheduled(names=names, sched=sched, body=body):
-            sch = LineScheduler(("pyoda_time/calendars/_year_month_day_calculator.py",), stall_s=0.02)
-            sch.run([body(tn) for tn in names], [names.index(t) for t in sched if t in names])
+            # (line by line also inside the zone's own code: the interval cache, the recurring-rule map and its recurrences)
+            sch = LineScheduler(("pyoda_time/calendars/_year_month_day_calculator.py", "pyoda_time/time_zones/_standard_daylight_alternating_map.py",
+                                 "pyoda_time/time_zones/_caching_zone_interval_map.py", "pyoda_time/time_zones/_zone_recurrence.py"), stall_s=0.02)
+            sch.run([body(tn) for tn in names], [names.index(t) for t in sched if t in names] + [rnd.randrange(len(names)) for _ in range(400)])
 
         c13.cold(calc, scheduled)
         for t, v in results:
